@@ -9,6 +9,8 @@ History machine on one real Trimesh: steps of `checked reads ; mutator`, final s
 """
 import copy as pycopy
 
+import os
+
 import numpy as np
 
 from ..core.engine import HarnessError, Inapplicable, seed_lib_rng
@@ -1035,8 +1037,10 @@ class C01(World):
                 ok = got.shape == want.shape
                 if ok:
                     for j, (p, n) in enumerate(zip(np.asarray(main.vertices), got)):
-                        cand = np.nonzero((np.abs(pre[0] - p).max(axis=1) <= 1e-12 * (1 + np.abs(p).max())))[0]
-                        if not len(cand) or np.abs(pre_vn[cand] - n).max(axis=1).min() > 1e-9:
+                        # (non-finite rows - a smoothing filter rescaling by the cube root of a negative volume leaves NaN everywhere -
+                        #  are matched as equal: NaN is where NaN was)
+                        cand = np.nonzero(np.isclose(pre[0], p, rtol=0.0, atol=1e-12 * (1 + np.nanmax(np.abs(p)) if np.isfinite(p).any() else 1.0), equal_nan=True).all(axis=1))[0]
+                        if not len(cand) or not np.isclose(pre_vn[cand], n, rtol=0.0, atol=1e-9, equal_nan=True).all(axis=1).any():
                             ok = False
                             break
                 if not ok:
